@@ -86,9 +86,22 @@ pub fn run(ctx: &Ctx) -> i32 {
         return run_sub(ctx);
     }
     let n_rand = ctx.n(300, 30_000);
+    // What an operator does must not depend on which instantiation of the value type the process
+    // used first: this process runs the wide instantiation (i64) once before anything else, the
+    // sub-process with the overflow-checking build starts with the narrow one (i32).
+    let mut warm_up: Vec<Finding> = vec![];
+    {
+        let mut st = Stats::new();
+        let mut rng = crate::rng::Rng::new(ctx.seed, 171717);
+        direct_i64_f32(&mut rng, 3, &mut st, &mut warm_up);
+    }
+    let warm_up: Vec<Finding> = warm_up.into_iter().filter(|f| f.kind != FKind::ValueMismatch).collect();
     let mut stats = run_workers(ctx, 17, |w, rng, st| {
         let mut findings: Vec<Finding> = vec![];
         if w == 0 {
+            for f in &warm_up {
+                record(st, f, "release (overflow wraps silently), wide instantiation first");
+            }
             direct_i32_f64(rng, n_rand, st, &mut findings);
             st.sample(json!({"operator": "unary -", "operand": "Int(-2147483648)", "documented": "error value"}));
             st.sample(json!({"text folded at parse time": "to_int(10000000000.0)", "documented": "error value, no panic"}));
